@@ -171,6 +171,24 @@ func netlinkCasesCmd(args []string) int {
 				}
 			}
 		}
+		// ---- flags that ask for no answer: the kernel must stay silent -------------------------------
+		// (netlink_rcv_skb handles only NLM_F_REQUEST messages and acknowledges only NLM_F_ACK ones or errors;
+		// a reply to such a message means the flags on the wire were not the caller's)
+		for _, fl := range []int{0, 2, 0x100, 0x300, 0x10, 0xfffa} {
+			for _, l := range []int{0, 4, 33} {
+				payload := make([]byte, l)
+				rng.Read(payload)
+				seq, err := c.Send(syscall.NetlinkMessage{Header: syscall.NlMsghdr{Type: 0x7ff0, Flags: uint16(fl)}, Data: payload})
+				ret, _, _, raw := receiveEchoN(c, cap, 30)
+				rec := map[string]interface{}{"k": "ssend", "g": 0, "type": 0x7ff0, "flags": fl, "pid_in": limbs(0), "payload": bytesOf(payload),
+					"ret": "ok", "ret_seq": limbs(seq), "port": limbs(port), "answered": ret != "none", "echo": bytesOf(raw)}
+				if err != nil {
+					rec["ret"] = "err"
+				}
+				w.write(rec)
+				stats["silent_send_cases"]++
+			}
+		}
 		c.Close()
 
 		// ---- read buffers that the kernel's datagram fills exactly, or nearly ------------------
@@ -369,7 +387,16 @@ func netlinkCasesCmd(args []string) int {
 	trace++
 	w.write(map[string]interface{}{"k": "reset", "trace": trace})
 	for l := 0; l <= 64; l++ {
-		for rep := 0; rep < 2+*reps; rep++ {
+		// the header's own length field says what it likes (the kernel's audit records put the payload
+		// length there, other replies the whole length): everything after the 16 bytes is the payload
+		lenFields := []int{-1, -1}
+		for r := 0; r < *reps; r++ {
+			lenFields = append(lenFields, -1)
+		}
+		if l >= 16 {
+			lenFields = append(lenFields, 0, 16, l, l-1, l-2, l-3, l-4, l+1, l+3, l-16, 0x7fffffff)
+		}
+		for rep, lf := range lenFields {
 			backing := make([]byte, l+32)
 			for i := range backing {
 				backing[i] = 0xA5
@@ -386,6 +413,9 @@ func netlinkCasesCmd(args []string) int {
 				}
 			default:
 				rng.Read(buf)
+			}
+			if lf >= 0 {
+				buf[0], buf[1], buf[2], buf[3] = byte(lf), byte(lf>>8), byte(lf>>16), byte(lf>>24)
 			}
 			for _, via := range []string{"parser", "areceive"} {
 				rec := map[string]interface{}{"k": "parse", "via": via, "buf": bytesOf(buf), "ret": "err", "type": 0, "data": []int{}}
